@@ -250,6 +250,17 @@ func VerifHTMLTree(n int) {
 		in = append(append(append(in, "</"...), open[len(open)-1]...), '>')
 		open = open[:len(open)-1]
 	}
+	verifHTMLTreeCheck(in)
+}
+
+// VerifHTMLTreeWitness: the recorded witnesses of known findings of the tree harness, replayed on every run (the
+// quick bound of VerifHTMLTree is below their size).
+func VerifHTMLTreeWitness(n int) {
+	doc := []string{"<dl><dt></dt><!--c--></dl>", "<ul><li></li><!--c--></ul>"}[vChoice("doc", 2)]
+	verifHTMLTreeCheck([]byte(doc))
+}
+
+func verifHTMLTreeCheck(in []byte) {
 	keepAll, keepSpecial := vBool("KeepComments"), vBool("KeepSpecialComments")
 	keepC := 0
 	if keepAll {
